@@ -64,7 +64,9 @@ var kinds = []rrKind{
 	{"aaaa-safe", func(o string) dns.RR { return &dns.AAAA{Hdr: hdr(o, dns.TypeAAAA), AAAA: net.ParseIP(safeV6)} }},
 	{"aaaa-bad", func(o string) dns.RR { return &dns.AAAA{Hdr: hdr(o, dns.TypeAAAA), AAAA: net.ParseIP(badV6)} }},
 	// The blocked IPv4 address in its IPv4-mapped IPv6 form.
-	{"aaaa-mapped-bad-v4", func(o string) dns.RR { return &dns.AAAA{Hdr: hdr(o, dns.TypeAAAA), AAAA: net.ParseIP("::ffff:" + badV4)} }},
+	{"aaaa-mapped-bad-v4", func(o string) dns.RR {
+		return &dns.AAAA{Hdr: hdr(o, dns.TypeAAAA), AAAA: net.ParseIP("::ffff:" + badV4)}
+	}},
 	{"https-nohint", func(o string) dns.RR { return https(o, &dns.SVCBAlpn{Alpn: []string{"h2"}}) }},
 	{"https-v4bad", func(o string) dns.RR { return https(o, &dns.SVCBIPv4Hint{Hint: ips(badV4)}) }},
 	{"https-v6bad", func(o string) dns.RR { return https(o, &dns.SVCBIPv6Hint{Hint: ips(badV6)}) }},
@@ -146,6 +148,11 @@ type config struct {
 	// NX: the upstream answers NXDOMAIN and still carries the answer section
 	// (a CNAME chain ending at a name that does not exist).
 	NX bool `json:"upstream_nxdomain,omitempty"`
+	// Order: "" = records in chain order; "reversed" = the same records in the
+	// opposite order (addresses before the CNAMEs that lead to them);
+	// "upper-owners" = owner names of all records but the first in upper case
+	// (names are case-insensitive, the order of records is not significant).
+	Order string `json:"upstream_answer_order,omitempty"`
 }
 
 type caseC struct {
@@ -170,14 +177,23 @@ func kindByName(n string) *rrKind {
 }
 
 // mkAnswer builds the answer section: CNAME records chain owners.
-func mkAnswer(seq []string) []dns.RR {
+func mkAnswer(seq []string, order string) []dns.RR {
 	owner := qName
 	var out []dns.RR
-	for _, k := range seq {
-		rr := kindByName(k).mk(owner)
+	for i, k := range seq {
+		o := owner
+		if order == "upper-owners" && i > 0 {
+			o = strings.ToUpper(owner)
+		}
+		rr := kindByName(k).mk(o)
 		out = append(out, rr)
 		if c, ok := rr.(*dns.CNAME); ok {
 			owner = strings.TrimSuffix(c.Target, ".")
+		}
+	}
+	if order == "reversed" {
+		for i, j := 0, len(out)-1; i < j; i, j = i+1, j-1 {
+			out[i], out[j] = out[j], out[i]
 		}
 	}
 	return out
@@ -233,14 +249,14 @@ func (e *env) runConfig(cf *config, qtypes []uint16, seqs [][]string) {
 		for _, seq := range seqs {
 			c.Count("evals", 1)
 			cs := caseC{Conf: *cf, Qtype: dns.TypeToString[qt], Answer: seq}
-			ans := mkAnswer(seq)
+			ans := mkAnswer(seq, cf.Order)
 			a.Upstream.Answer = func(req *dns.Msg) *dns.Msg {
 				resp := (&dns.Msg{}).SetReply(req)
 				resp.RecursionAvailable = true
 				if cf.NX {
 					resp.Rcode = dns.RcodeNameError
 				}
-				for _, rr := range mkAnswer(seq) {
+				for _, rr := range mkAnswer(seq, cf.Order) {
 					resp.Answer = append(resp.Answer, rr)
 				}
 				return resp
@@ -419,7 +435,9 @@ func run(c *lib.Ctx) {
 		}
 		confs = append(confs, config{Rules: rs, Mode: "default", Prot: true, Filter: true, ClientOK: "none", NX: true},
 			config{Rules: rs, Mode: "default", Prot: true, Filter: true, ClientOK: "none", Cache: true},
-			config{Rules: rs, Mode: "null_ip", AAAAOff: true, Prot: true, Filter: true, ClientOK: "none", Cache: true})
+			config{Rules: rs, Mode: "null_ip", AAAAOff: true, Prot: true, Filter: true, ClientOK: "none", Cache: true},
+			config{Rules: rs, Mode: "default", Prot: true, Filter: true, ClientOK: "none", Order: "reversed"},
+			config{Rules: rs, Mode: "nxdomain", Prot: true, Filter: true, ClientOK: "none", Order: "upper-owners"})
 	}
 	// Split the sequence list into chunks so that shards balance.
 	const chunk = 400
@@ -476,7 +494,7 @@ func main() {
 				"distinct_nontrivial": m.Distinct["nontrivial"],
 				"configurations":      m.Counters["configs"],
 				"distinct_cells":      m.Distinct["cells"],
-				"rule": "every answer section of length <=3 (quick) / <=4 (thorough) over 16 record kinds (CNAME safe/bad/case/excepted with owner chaining, A/AAAA safe/bad, AAAA holding the blocked IPv4 address in mapped form, HTTPS with no hint, bad v4 hint, bad v6 hint, clean first hint + bad later hint, hint list with bad last, TXT, MX) x 10 rule sets x (5 modes + 5 flag variants: AAAA disabled, protection off, filtering off, client filtering off + 1 variant in which the upstream answers NXDOMAIN with the same answer section + 2 variants with the proxy's answer cache on, where every question is asked twice and the second, cached, response is judged) x 5 query types, through the real pipeline with a scripted upstream; oracle: first record exposing a host the rule model blocks => blocking-mode response for the query's type (no upstream data) and a log entry with original answer; else the upstream answer unchanged. distinct_nontrivial = distinct (configuration, qtype, answer section) where some record is blocked",
+				"rule":                "every answer section of length <=3 (quick) / <=4 (thorough) over 16 record kinds (CNAME safe/bad/case/excepted with owner chaining, A/AAAA safe/bad, AAAA holding the blocked IPv4 address in mapped form, HTTPS with no hint, bad v4 hint, bad v6 hint, clean first hint + bad later hint, hint list with bad last, TXT, MX) x 10 rule sets x (5 modes + 5 flag variants: AAAA disabled, protection off, filtering off, client filtering off + 1 variant in which the upstream answers NXDOMAIN with the same answer section + 1 variant with the records of the answer in the opposite order + 1 with upper-case owner names + 2 variants with the proxy's answer cache on, where every question is asked twice and the second, cached, response is judged) x 5 query types, through the real pipeline with a scripted upstream; oracle: first record exposing a host the rule model blocks => blocking-mode response for the query's type (no upstream data) and a log entry with original answer; else the upstream answer unchanged. distinct_nontrivial = distinct (configuration, qtype, answer section) where some record is blocked",
 			}
 		},
 		Assumptions: []string{"single-rule matching delegated to urlfilter", "with AAAA disabled and response filtering applicable, HTTPS records are accepted with or without their ipv6hint; where response filtering is not applicable the answer must be byte-identical", "a cached answer is compared without its TTL"},
